@@ -24,10 +24,24 @@ F64 = torch.float64
 def block_flat_indices(block: torch.Tensor, param: torch.Tensor) -> torch.Tensor:
     """Flat indices (into param.view(-1), param contiguous) of the block's elements, in the block's own iteration
     order; computed from (storage offset, shape, stride) only."""
-    off = block.storage_offset() - param.storage_offset()
-    idx = torch.full(tuple(block.shape), off, dtype=torch.int64)
-    for d, (n, s) in enumerate(zip(block.shape, block.stride())):
-        view = [1] * block.dim()
+    idx = _storage_positions(block, block.storage_offset() - param.storage_offset())
+    if param.dim() >= 2 and not param.is_contiguous():
+        # a dense parameter in another memory layout: storage position -> logical (row-major) index of the parameter;
+        # positions that hold no element of the parameter map to -1
+        pos = _storage_positions(param, 0).reshape(-1)
+        size = int(max(int(pos.max()) if pos.numel() else 0, int(idx.max()) if idx.numel() else 0)) + 1
+        inv = torch.full((size,), -1, dtype=torch.int64)
+        inv[pos] = torch.arange(pos.numel(), dtype=torch.int64)
+        neg = idx < 0
+        idx = inv[idx.clamp(min=0)]
+        idx[neg] = -1
+    return idx
+
+
+def _storage_positions(t: torch.Tensor, off: int) -> torch.Tensor:
+    idx = torch.full(tuple(t.shape), off, dtype=torch.int64)
+    for d, (n, s) in enumerate(zip(t.shape, t.stride())):
+        view = [1] * t.dim()
         view[d] = n
         idx = idx + (torch.arange(n, dtype=torch.int64) * s).view(view)
     return idx
